@@ -372,7 +372,8 @@ func c11RunE2E(t *testing.T, lane string, alt bool, n int, rule string) {
 					}
 					as := &altsvc.AltSvc{Protocol: "h2", Expire: time.Now().Add(time.Hour)}
 					kind := r.Intn(4)
-					if kind == 0 && strings.HasSuffix(a, "]") {
+					if kind == 0 && strings.HasPrefix(a, "[") {
+						// (any bracketed origin: the jar key of "[::2]:443" is also the key of "[::2]")
 						// not generated: for a port-less bracketed IPv6 origin altsvcutil.ConvertURL
 						// builds "[[::2]]:port" (JoinHostPort of an already bracketed host) and the
 						// request fails before anything is sent - an availability defect of the
